@@ -864,6 +864,8 @@ pub const STD_TAGS: &[(u16, u16, &[u8; 2], bool)] = &[
     (0x0008, 0x0304, b"US", true),
     (0x0028, 0x0010, b"US", false),
     (0x0028, 0x0011, b"US", false),
+    // Pixel Representation: the stateful decoder keeps it to resolve "US or SS" attributes
+    (0x0028, 0x0103, b"US", false),
     (0x0010, 0x0013, b"UT", false),
     (0x0008, 0x030E, b"UT", false),
     (0x0072, 0x0083, b"UV", true),
